@@ -285,11 +285,15 @@ def replay(cand):
                 fn2 = os.path.join(d, "x%s.rec" % ("t" if dl else "b"))
                 c0, c1 = _real_chunk(DESCR, 3, 1), _real_chunk(DESCR, 2, 50)
                 sfile.write(c0, fn2, delim=dl, header=dict(HDR))
-                with sfile.SFile(fn2, mode="r+") as h:
-                    _ = h[0:1]
-                    _ = h.read(rows=[0], columns=["x"])
-                    h.write(c1)
-                back, hh = sfile.read(fn2, header=True)
+                try:
+                    with sfile.SFile(fn2, mode="r+") as h:
+                        _ = h[0:1]
+                        _ = h.read(rows=[0], columns=["x"])
+                        h.write(c1)
+                    back, hh = sfile.read(fn2, header=True)
+                except Exception as e:
+                    return {"reproduced": True, "key": "cxx:append-position", "what": "partial read then write through one r+ handle (%s) raised %s: %s"
+                            % ("text" if dl else "binary", type(e).__name__, e)}
                 want = np.concatenate([c0, c1])
                 if back.size != 5 or hh["_SIZE"] != 5 or any(not np.array_equal(back[nm], want[nm]) for nm in want.dtype.names):
                     return {"reproduced": True, "key": "cxx:append-position", "what": "partial read then write through one r+ handle (%s): file holds x=%r (header %r), expected %r"
